@@ -100,7 +100,8 @@ func (j *jsonBuilder) mergeEntities(left *astjson.Value, rightResult resultData)
 }
 
 // mergeWithPath merges a JSON value with a resolved value by its path.
-func (j *jsonBuilder) mergeWithPath(base *astjson.Value, resolved *astjson.Value, path ast.Path) error {
+// For a follow-up call of an entity lookup, entities holds the positions in _entities the resolved values belong to.
+func (j *jsonBuilder) mergeWithPath(base *astjson.Value, resolved *astjson.Value, path ast.Path, entities entityIndexMap) error {
 	if len(path) == 0 {
 		return errors.New("path is empty")
 	}
@@ -121,6 +122,17 @@ func (j *jsonBuilder) mergeWithPath(base *astjson.Value, resolved *astjson.Value
 	switch current.Type() {
 	case astjson.TypeArray:
 		arr := current.GetArray()
+		if entities != nil && searchPath[0].FieldName.String() == entityPath {
+			// Only the entities of the type the call was made for take part, in representation order.
+			selected := make([]*astjson.Value, 0, len(entities))
+			for _, index := range entities {
+				if index < len(arr) {
+					selected = append(selected, arr[index])
+				}
+			}
+			arr = selected
+		}
+
 		values, err := j.flattenList(arr, searchPath[1:])
 		if err != nil {
 			return err
